@@ -93,6 +93,8 @@ Fixpoint parse_pairs (fuel : nat) (remaining : Z) (l : list Z) (acc : list pair)
   | O => Err OutOfFuel
   | S f =>
       do ' (size, r1) <- read_u64 l; do ' (key, r2) <- read_u32 r1;
+      (* f.read(n) with n above sys.maxsize (2^63 - 1): "cannot fit 'int' into an index-sized integer" *)
+      if 9223372036854775807 <? size - 4 then Err OverflowError else
       let v := if size - 4 <? 0 then r2 else takez (size - 4) r2 in
       let rest := if size - 4 <? 0 then [] else dropz (size - 4) r2 in
       parse_pairs f (remaining - 12 - len v) rest (acc ++ [{| p_id := key; p_dup := existsb (fun p => p_id p =? key) acc; p_data := v |}])
